@@ -686,6 +686,69 @@ pub struct L3 {
     pexpr: Option<syn::Expr>,
 }
 
+#[cfg(not(skip = "L4"))]
+#[derive(FromMeta)]
+pub struct L4 {
+    litfloat: Option<syn::LitFloat>,
+    litbyte: Option<syn::LitByte>,
+    litbytestr: Option<syn::LitByteStr>,
+    litchar: Option<syn::LitChar>,
+    literal: Option<proc_macro2::Literal>,
+    vlitfloat: Option<Vec<syn::LitFloat>>,
+    vlitbyte: Option<Vec<syn::LitByte>>,
+    vlitbytestr: Option<Vec<syn::LitByteStr>>,
+    vlitchar: Option<Vec<syn::LitChar>>,
+    vlitbool: Option<Vec<syn::LitBool>>,
+    vliteral: Option<Vec<proc_macro2::Literal>>,
+    vu16: Option<Vec<u16>>,
+    vu32: Option<Vec<u32>>,
+    vusize: Option<Vec<usize>>,
+    nzu16: Option<std::num::NonZeroU16>,
+    nzu32: Option<std::num::NonZeroU32>,
+    nzu64: Option<std::num::NonZeroU64>,
+    nzusize: Option<std::num::NonZeroUsize>,
+    nzi8: Option<std::num::NonZeroI8>,
+    nzi16: Option<std::num::NonZeroI16>,
+    nzi32: Option<std::num::NonZeroI32>,
+    nzi128: Option<std::num::NonZeroI128>,
+    nzisize: Option<std::num::NonZeroIsize>,
+    rename: Option<darling::util::Callable>,
+    bxstr: Option<Box<String>>,
+    rcflag: Option<Rc<darling::util::Flag>>,
+    ovbool: Option<Override<bool>>,
+    spf64: Option<SpannedValue<f64>>,
+    wolit: Option<WithOriginal<syn::LitInt, syn::Meta>>,
+}
+
+#[cfg(not(skip = "L5"))]
+#[derive(FromMeta)]
+pub struct L5 {
+    tarray: Option<syn::TypeArray>,
+    tbarefn: Option<syn::TypeBareFn>,
+    tgroup: Option<syn::TypeGroup>,
+    timpl: Option<syn::TypeImplTrait>,
+    tinfer: Option<syn::TypeInfer>,
+    tmacro: Option<syn::TypeMacro>,
+    tnever: Option<syn::TypeNever>,
+    tparam: Option<syn::TypeParam>,
+    tparen: Option<syn::TypeParen>,
+    tpath: Option<syn::TypePath>,
+    tptr: Option<syn::TypePtr>,
+    tref: Option<syn::TypeReference>,
+    tslice: Option<syn::TypeSlice>,
+    ttrait: Option<syn::TypeTraitObject>,
+    ttuple: Option<syn::TypeTuple>,
+    punctexpr: Option<syn::punctuated::Punctuated<syn::Expr, syn::Token![,]>>,
+    punctty: Option<syn::punctuated::Punctuated<syn::Type, syn::Token![;]>>,
+    hmsu: Option<HashMap<String, Vec<u8>>>,
+    bmil: Option<BTreeMap<syn::Ident, syn::LitFloat>>,
+    hmpt: Option<HashMap<syn::Path, syn::Type>>,
+    #[darling(multiple)]
+    many: Vec<syn::LitFloat>,
+    #[darling(with = darling::util::parse_expr::parse_str_literal, map = Some)]
+    pstr: Option<syn::Expr>,
+}
+
 macro_rules! opaque {
     ($($t:ident),*) => {$(
         impl Observe for $t {
@@ -701,6 +764,10 @@ opaque!(L1);
 opaque!(L2);
 #[cfg(not(skip = "L3"))]
 opaque!(L3);
+#[cfg(not(skip = "L4"))]
+opaque!(L4);
+#[cfg(not(skip = "L5"))]
+opaque!(L5);
 
 // keyed collections as root targets; R?H* hash maps and their ordered twins R?B* share site ids
 #[cfg(not(skip = "RHS"))]
@@ -814,6 +881,10 @@ pub fn run_meta_receiver(name: &str, entry: &MetaEntry, meta: &syn::Meta) -> Opt
         "L2" => Some(run_meta::<L2>(entry, meta)),
         #[cfg(not(skip = "L3"))]
         "L3" => Some(run_meta::<L3>(entry, meta)),
+        #[cfg(not(skip = "L4"))]
+        "L4" => Some(run_meta::<L4>(entry, meta)),
+        #[cfg(not(skip = "L5"))]
+        "L5" => Some(run_meta::<L5>(entry, meta)),
         #[cfg(not(skip = "RHS"))]
         "RHS" => Some(run_meta::<RHS>(entry, meta)),
         #[cfg(not(skip = "RBS"))]
